@@ -90,7 +90,7 @@ req_sketch<T, C, A>& req_sketch<T, C, A>::operator=(const req_sketch& other) {
   std::swap(compactors_, copy.compactors_);
   std::swap(min_item_, copy.min_item_);
   std::swap(max_item_, copy.max_item_);
-  reset_sorted_view();
+  std::swap(sorted_view_, copy.sorted_view_); // released by its owner's allocator
   return *this;
 }
 
@@ -106,7 +106,7 @@ req_sketch<T, C, A>& req_sketch<T, C, A>::operator=(req_sketch&& other) {
   std::swap(compactors_, other.compactors_);
   std::swap(min_item_, other.min_item_);
   std::swap(max_item_, other.max_item_);
-  reset_sorted_view();
+  std::swap(sorted_view_, other.sorted_view_); // stays with the allocator that issued it
   return *this;
 }
 
